@@ -22,6 +22,7 @@ type incarnation struct {
 	reset   int  // connections dialled before the latest reset of this server's connections are broken
 	refuse  bool // new connections are refused (the listener is unreachable); established ones keep working
 	hang    bool // the process has stopped answering without closing its connections: calls never return
+	failN   int  // the next failN calls are answered with an error (the connection stays up)
 }
 
 var registry = map[string]*incarnation{}
@@ -50,6 +51,14 @@ type Client struct {
 	closed bool
 	epoch  int // connections of an older epoch were reset by the network
 	reset  int
+}
+
+// FailCalls makes the next n calls to the server at addr fail with an error (a handler that is busy or a
+// request that is lost); connections stay up and later calls succeed.
+func FailCalls(addr string, n int) {
+	if in := registry[addr]; in != nil {
+		in.failN = n
+	}
 }
 
 // Hang makes the server at addr stop answering (its connections stay up): a call to it does not return for a
@@ -106,6 +115,10 @@ func (c *Client) Call(serviceMethod string, args any, reply any) error {
 	if c.in.hang {
 		vrt.Sleep(3600e9)
 		return ErrShutdown
+	}
+	if c.in.failN > 0 {
+		c.in.failN--
+		return errors.New("rpc: call failed (transient)")
 	}
 	name := serviceMethod
 	if i := strings.LastIndex(name, "."); i >= 0 {
